@@ -51,7 +51,23 @@ const (
 	valDefault = int64(0)
 )
 
+// untypedBit marks ids whose fee is stored WITHOUT its FeeType field (the map
+// key carries the type; the field is optional in the API).
+const untypedBit = 0x80000
+
+// typeFieldAsWritten: a fee read through Fee() carries the FeeType field its
+// writer stored (empty for untyped ids), not something put there by a reader.
+func typeFieldAsWritten(f *bt.Fee, id int64) bool {
+	if f == nil || id == valAbsent || id == valDefault {
+		return true
+	}
+	return (id&untypedBit != 0) == (f.FeeType == "")
+}
+
 func mkFee(ft bt.FeeType, id int64) *bt.Fee {
+	if id&untypedBit != 0 {
+		ft = ""
+	}
 	return &bt.Fee{FeeType: ft, MiningFee: bt.FeeUnit{Satoshis: int(id & 0xfffff), Bytes: int(id>>20) + 1},
 		RelayFee: bt.FeeUnit{Satoshis: int(id&0xfffff) ^ 0x5a5a5, Bytes: int(id>>20) + 7}}
 }
@@ -323,15 +339,18 @@ func c18FeeQuoteHistory(c *mon.Ctx, h *c18Hist) {
 					if err != nil {
 						id = valAbsent
 					}
-					if !ok {
+					if !ok || (err == nil && !typeFieldAsWritten(f, id)) {
 						rec.mu.Lock()
-						rec.torn = append(rec.torn, fmt.Sprintf("FeeQuote.Fee returned inconsistent fields %+v", *f))
+						rec.torn = append(rec.torn, fmt.Sprintf("FeeQuote.Fee returned a value no writer stored (inconsistent fields, or a FeeType field the writer did not set): %+v", *f))
 						rec.mu.Unlock()
 					}
 					rec.add(c18Op{proc: g, kind: "FeeQuote.Fee", key: fmt.Sprintf("fee:free%d:%s", i, t), val: id, call: call, ret: ret})
 				case 2, 3: // FeeQuote.AddQuote
 					i := r.Intn(2)
 					id := newID()
+					if r.Bool() {
+						id |= untypedBit
+					}
 					fee := mkFee(t, id)
 					call := rec.clock.Add(1)
 					free[i].AddQuote(t, fee)
@@ -398,15 +417,18 @@ func c18FeeQuoteHistory(c *mon.Ctx, h *c18Hist) {
 					if err != nil {
 						id = valAbsent
 					}
-					if !ok {
+					if !ok || (err == nil && !typeFieldAsWritten(f, id)) {
 						rec.mu.Lock()
-						rec.torn = append(rec.torn, fmt.Sprintf("FeeQuotes.Fee returned inconsistent fields %+v", *f))
+						rec.torn = append(rec.torn, fmt.Sprintf("FeeQuotes.Fee returned a value no writer stored (inconsistent fields, or a FeeType field the writer did not set): %+v", *f))
 						rec.mu.Unlock()
 					}
 					rec.add(c18Op{proc: g, kind: "FeeQuotes.Fee", key: "fee:" + m + ":" + string(t), val: id, call: call, ret: ret})
 				case 12, 13: // FeeQuotes.UpdateMinerFees (known miners only, so that it is a plain write)
 					m := prng.Pick(r, []string{"m0", "m1"})
 					id := newID()
+					if r.Bool() {
+						id |= untypedBit
+					}
 					call := rec.clock.Add(1)
 					_, err := fqs.UpdateMinerFees(m, t, mkFee(t, id))
 					ret := rec.clock.Add(1)
